@@ -41,13 +41,22 @@ class Ctx:
         self.notes = []
         self.exhaustive = {}
         self.functions_touched = set()
+        self.broken = []
+        self.only = None  # tuple of rule id prefixes this property includes (None = all)
+
+    def _on(self, rid):
+        return self.only is None or any(rid == p or rid.startswith(p) for p in self.only)
 
     # ---- bookkeeping
     def rule(self, rid, doc):
+        if not self._on(rid):
+            return
         self.rule_docs[rid] = doc
         self.rule_counts.setdefault(rid, {"instances": 0, "nontrivial": 0, "violations": 0})
 
     def ok(self, rid, instance, detail="", where="", nontrivial=True, fn=None):
+        if not self._on(rid):
+            return
         c = self.rule_counts.setdefault(rid, {"instances": 0, "nontrivial": 0, "violations": 0})
         c["instances"] += 1
         if nontrivial:
@@ -57,6 +66,8 @@ class Ctx:
             self.functions_touched.add(fn.pat)
 
     def bad(self, rid, instance, msg, where="", path=None, fn=None):
+        if not self._on(rid):
+            return
         c = self.rule_counts.setdefault(rid, {"instances": 0, "nontrivial": 0, "violations": 0})
         c["instances"] += 1
         c["nontrivial"] += 1
@@ -77,7 +88,7 @@ class Ctx:
         """a rule that matches fewer instances than confirmed by hand is analysis-broken, not a pass"""
         n = self.rule_counts.get(rid, {"instances": 0})["instances"]
         if n < minimum:
-            raise AnalysisBroken("rule %s matched %d instances, floor is %d (anchors vanished?)" % (rid, n, minimum))
+            self.broken.append("rule %s matched %d instances, floor is %d (anchors vanished?)" % (rid, n, minimum))
 
     def note(self, s):
         self.notes.append(s)
@@ -109,6 +120,8 @@ class Ctx:
                 continue
             unlisted += 1
             rp = os.path.join(VERIF, "evidence", "replay", "%s-%s-%d.json" % (self.prop, re.sub(r"[^A-Za-z0-9_.]", "_", v["rule"]), i))
+            if "--no-evidence" in sys.argv:
+                rp = os.path.join(os.environ.get("TMPDIR", "/tmp"), os.path.basename(rp))
             with open(rp, "w") as fh:
                 json.dump({"property": self.prop, "rule": v["rule"], "rule_doc": self.rule_docs.get(v["rule"], ""), "instance": v["instance"],
                            "message": v["message"], "where": v["where"], "path": v["path"], "repo": REPO, "facts_key": self.facts.key}, fh, indent=1)
@@ -157,10 +170,15 @@ class Ctx:
             "wall_s": round(time.time() - self.t0, 3),
             "violations": unlisted,
         }
-        with open(os.path.join(VERIF, "evidence", self.prop + ".json"), "w") as fh:
-            json.dump(ev, fh, indent=1)
+        if "--no-evidence" not in sys.argv:
+            with open(os.path.join(VERIF, "evidence", self.prop + ".json"), "w") as fh:
+                json.dump(ev, fh, indent=1)
         for l in lines:
             print(l)
+        if exit_code == 0 and self.broken:
+            for b in self.broken[:10]:
+                print("ANALYSIS-BROKEN: %s" % b)
+            exit_code = 2
         print("%s tier=%s: %d obligations over %d rules, %d hold, %d unlisted violations, %d known findings; facts %s (%d shapes / %d instantiations / %d TUs)" % (
             self.prop, self.tier, n_ob, len(self.rule_counts), n_ok, unlisted, len(seen_known), self.facts.key, st["function_shapes"],
             st["function_instantiations"], st["translation_units"]))
